@@ -197,6 +197,33 @@ func c02ModeCheck(l *explore.Local, _ struct{}, c c02Mode) *explore.Fail {
 	return nil
 }
 
+// c02LowWindowROM: MBC1, 64 pages. The main program is present at the same addresses in pages 00 and 20; the routine
+// at 0200 is NOP; RET in page 00 and INC (HL); INC (HL); RET in page 20. Main: call 0200; mode 1, upper bank bits 1
+// (0000-3FFF now shows page 20); call 0200; upper bits 0; call 0200; and again; then spin.
+func c02LowWindowROM() []byte {
+	img := machine.Image(0x01, 5, 0, 64)
+	main := []byte{
+		0x21, 0x00, 0xc0, // LD HL,C000
+		0xcd, 0x00, 0x02, // CALL 0200
+		0x3e, 0x01, 0xea, 0x00, 0x60, // mode 1
+		0x3e, 0x01, 0xea, 0x00, 0x40, // upper bits 1
+		0xcd, 0x00, 0x02,
+		0xaf, 0xea, 0x00, 0x40, // upper bits 0
+		0xcd, 0x00, 0x02,
+		0x3e, 0x01, 0xea, 0x00, 0x40,
+		0xcd, 0x00, 0x02,
+		0x18, 0xfe,
+	}
+	for _, page := range []int{0x00, 0x20} {
+		base := page * 0x4000
+		copy(img[base+0x100:], []byte{0xc3, 0x50, 0x01})
+		copy(img[base+0x150:], main)
+	}
+	copy(img[0x0200:], []byte{0x00, 0xc9})
+	copy(img[0x20*0x4000+0x0200:], []byte{0x34, 0x34, 0xc9})
+	return img
+}
+
 type c02ROM struct {
 	File   string `json:"file"`
 	Frames int    `json:"frames"`
@@ -653,13 +680,16 @@ func init() {
 					}
 				}
 			}, func() struct{} { return struct{}{} }, c02ModeCheck)
-		explore.Product(c.R, "rom-monitor", explore.PartOpt{Bound: fmt.Sprintf("%d frames each, every executed instruction measured", frames), Domain: "blargg instr_timing, mem_timing, cpu_instrs, halt_bug"},
+		explore.Product(c.R, "rom-monitor", explore.PartOpt{Bound: fmt.Sprintf("%d frames each, every executed instruction measured", frames), Domain: "blargg instr_timing, mem_timing, cpu_instrs, halt_bug; a 1 MiB MBC1 guest executing the same low-window address from two pages"},
 			func(yield func(c02ROM) bool) {
 				for _, f := range []string{"blargg/instr_timing/instr_timing.gb", "blargg/mem_timing/mem_timing.gb", "blargg/cpu_instrs/cpu_instrs.gb", "blargg/halt_bug.gb"} {
 					if !yield(c02ROM{filepath.Join(c.Repo, "gameboy/testdata", f), frames}) {
 						return
 					}
 				}
+				// a 1 MiB MBC1 guest that executes the same address below 4000 before and after mapping bank 20 there
+				// (mode 1): the instruction measured is the one the bus delivers now
+				yield(c02ROM{writeOnce(filepath.Join(c.Scratch, "c02-mbc1-low-window.gb"), c02LowWindowROM()), 1})
 			}, func() struct{} { return struct{}{} }, c02ROMCheck)
 	})
 
